@@ -5,6 +5,8 @@ Equality of two real EVM runs has no encodable oracle here; decided instead, on 
   h1_replay_global_txid   : the sequential replay closure (fallback.rs) hands the reserve planner the loop's GLOBAL transaction
                             index (not an index rebased at the replay start) for every transaction it replays, installs the
                             transaction before running the handler, and commits the state only for a successful outcome.
+  h1b_replay_loop_global_txid : the loop around that closure (execute_sequential_suffix, = C04/h3) calls it with consecutive GLOBAL
+                            indices start, start+1, ... and the block's own transaction at that index, from any start boundary.
   h2_parallel_global_txid : the parallel executor (executor.rs) hands the planner the incarnation's own transaction index
                             (= C11/h2 with the index recorded).
   h3_*                    : iteration-order independence: the kernels below iterate hash sets / maps in an order chosen by
@@ -20,6 +22,7 @@ from translate import Loc, VAgg, VRef, VScalar, VLoc, VUnit, TranslateError
 import revm_types
 import sched_common as sc
 import c11
+import c04
 import c08
 import c13
 import c16
@@ -112,7 +115,7 @@ def specs(tier):
                 desc="real sequential-replay closure with revm's Evm / handler / state as recording ghosts", bounds={}),
            Spec("h2_parallel_global_txid", build_h2(), cfg=replay_cfg(), unwind=3, timeout=1800,
                 desc="real GrevmExecutor::execute_incarnation with the planner query recorded", bounds={})]
-    pick = [(c08, "h3_publish", "h3_order_publish_writes"), (c16, "step_S_n3", "h3_order_dependency_release"),
+    pick = [(c04, "h3_seq_suffix", "h1b_replay_loop_global_txid"), (c08, "h3_publish", "h3_order_publish_writes"), (c16, "step_S_n3", "h3_order_dependency_release"),
             (c13, "h1_violation_predicate", "h3_order_reserve_scan"), (c02, "step_R_n3", "h3_order_execute_task")]
     for mod, name, new in pick:
         for s in mod.specs(tier):
